@@ -177,8 +177,8 @@ pub fn run(args: &Args) -> i32 {
     use rand::Rng;
 
     // ---- primes(k)
-    let mut ks: Vec<u32> = (1..=if thorough { 3000 } else { 512 }).collect();
-    for j in 9..=if thorough { 20 } else { 14 } {
+    let mut ks: Vec<u32> = (0..=if thorough { 3000 } else { 512 }).collect();
+    for j in 9..=if thorough { 18 } else { 14 } {
         ks.extend_from_slice(&[(1 << j) - 1, 1 << j, (1 << j) + 1]);
     }
     ks.extend_from_slice(&[6541, 6542, 6543, 35000, 50_000, 100_000]);
@@ -223,7 +223,7 @@ pub fn run(args: &Args) -> i32 {
                     })
                     .collect();
                 evs.push(json!({"op": "sieve_block", "case": format!("sieve/{}", b), "b": b, "len": blk.len(),
-                                "first": blk.first().map(|x| x.to_string()), "lastv": blk.last().map(|x| x.to_string()),
+                                "first": blk.first().map(|x| x.to_string()).unwrap_or_default(), "lastv": blk.last().map(|x| x.to_string()).unwrap_or_default(),
                                 "idx": idx}));
             }
         }
